@@ -19,11 +19,8 @@ import (
 type state [25]uint64
 
 func rotl(v uint64, n uint) uint64 {
-	n %= 64
-	if n == 0 {
-		return v
-	}
-	return v<<n | v>>(64-n)
+	n &= 63
+	return v<<n | v>>((64-n)&63)
 }
 
 // rc(t) of FIPS 202 algorithm 5: LFSR x^8+x^6+x^5+x^4+1.
@@ -70,6 +67,19 @@ func init() {
 	}
 }
 
+// index helpers so that the round function below reads like FIPS 202 3.2 without paying for
+// a modulo per lane
+var mod5 = [10]int{0, 1, 2, 3, 4, 0, 1, 2, 3, 4}
+var piSrc [25]int // piSrc[x+5y] = index of A[(x+3y) mod 5, x]
+
+func init() {
+	for x := 0; x < 5; x++ {
+		for y := 0; y < 5; y++ {
+			piSrc[x+5*y] = (x+3*y)%5 + 5*x
+		}
+	}
+}
+
 func keccakF(a *state) {
 	for ir := 0; ir < 24; ir++ {
 		// theta
@@ -78,12 +88,10 @@ func keccakF(a *state) {
 			c[x] = a[x] ^ a[x+5] ^ a[x+10] ^ a[x+15] ^ a[x+20]
 		}
 		for x := 0; x < 5; x++ {
-			d[x] = c[(x+4)%5] ^ rotl(c[(x+1)%5], 1)
+			d[x] = c[mod5[x+4]] ^ rotl(c[mod5[x+1]], 1)
 		}
-		for x := 0; x < 5; x++ {
-			for y := 0; y < 5; y++ {
-				a[x+5*y] ^= d[x]
-			}
+		for i := 0; i < 25; i++ {
+			a[i] ^= d[mod5[i%5]]
 		}
 		// rho
 		for i := 0; i < 25; i++ {
@@ -91,15 +99,13 @@ func keccakF(a *state) {
 		}
 		// pi: A'[x,y] = A[(x+3y) mod 5, x]
 		var b state
-		for x := 0; x < 5; x++ {
-			for y := 0; y < 5; y++ {
-				b[x+5*y] = a[(x+3*y)%5+5*x]
-			}
+		for i := 0; i < 25; i++ {
+			b[i] = a[piSrc[i]]
 		}
-		// chi
-		for x := 0; x < 5; x++ {
-			for y := 0; y < 5; y++ {
-				a[x+5*y] = b[x+5*y] ^ (^b[(x+1)%5+5*y] & b[(x+2)%5+5*y])
+		// chi: A'[x,y] = A[x,y] ^ (~A[x+1,y] & A[x+2,y])
+		for y := 0; y < 25; y += 5 {
+			for x := 0; x < 5; x++ {
+				a[x+y] = b[x+y] ^ (^b[mod5[x+1]+y] & b[mod5[x+2]+y])
 			}
 		}
 		// iota
